@@ -81,6 +81,7 @@ type c29Case struct {
 
 func c29U64() *rapid.Generator[uint64] {
 	return rapid.OneOf(
+		rapid.SampledFrom([]uint64{0, 1, 7}),
 		rapid.SampledFrom([]uint64{0, 1, 255, 256, 65535, 65536, 1<<32 - 1, 1 << 32, 1<<53 - 1, 1 << 53, 1<<53 + 1,
 			1<<63 - 1, 1 << 63, 1<<63 + 1, math.MaxUint64 - 1, math.MaxUint64}),
 		rapid.Uint64(),
@@ -90,6 +91,7 @@ func c29U64() *rapid.Generator[uint64] {
 
 func c29I64() *rapid.Generator[int64] {
 	return rapid.OneOf(
+		rapid.SampledFrom([]int64{0, 1, 7, -1}),
 		rapid.SampledFrom([]int64{0, 1, -1, 127, -128, 1 << 31, -(1 << 31) - 1, 1<<53 + 1, -(1 << 53) - 1,
 			math.MaxInt64, math.MinInt64, math.MaxInt64 - 1, math.MinInt64 + 1}),
 		rapid.Int64(),
@@ -110,8 +112,32 @@ func c29Bytes(lens []int) *rapid.Generator[[]byte] {
 	})
 }
 
+// c29Nested: 0..4 entries mostly, with a tail of up to 40.
 func c29Nested(lens []int) *rapid.Generator[[][]byte] {
-	return rapid.SliceOfN(c29Bytes(lens), 0, 4)
+	return rapid.Custom(func(rt *rapid.T) [][]byte {
+		if c30Rare(rt, "run", 4) {
+			return rapid.SliceOfN(c29Bytes(lens), 5, 40).Draw(rt, "entries")
+		}
+		return rapid.SliceOfN(c29Bytes(lens), 0, 4).Draw(rt, "entries")
+	})
+}
+
+// c29EmptyRun is a long run (50..200) of empty (rarely one-byte) inner
+// slices: 4 bytes each in the codec, 3 characters each in JSON, which is the
+// only way a TestAction's encoding gets longer than its JSON document.
+func c29EmptyRun() *rapid.Generator[[][]byte] {
+	return rapid.Custom(func(rt *rapid.T) [][]byte {
+		n := 50 + rapid.IntRange(0, 150).Draw(rt, "runlen")
+		out := make([][]byte, n)
+		ones := rapid.SliceOfN(rapid.IntRange(0, n-1), 0, 3).Draw(rt, "nonempty")
+		for i := range out {
+			out[i] = []byte{}
+		}
+		for _, i := range ones {
+			out[i] = []byte{7}
+		}
+		return out
+	})
 }
 
 var c29Runes = []rune{'a', 'Z', '0', ' ', '"', '\\', '/', '<', '>', '&', '\'', 0, 1, '\n', '\t', 0x7f, 0x80, 0xe9, 0x3b1,
@@ -159,6 +185,12 @@ func c29Gen(rt *rapid.T) c29Case {
 			Nonce:       c29U64().Draw(rt, "nonce"),
 			Start:       c29I64().Draw(rt, "start"),
 			End:         c29I64().Draw(rt, "end"),
+		}
+		if c30Rare(rt, "bulkEmpty", 3) {
+			c.A.Reads = c29EmptyRun().Draw(rt, "readsRun")
+			c.A.WriteKeys = c29EmptyRun().Draw(rt, "wkeysRun")
+			c.A.WriteValues = c29EmptyRun().Draw(rt, "wvalsRun")
+			c.A.Keys = nil
 		}
 	}
 	return c
@@ -333,6 +365,9 @@ func c29Run(c c29Case, st *vstat.Stats) error {
 		if err != nil {
 			return fmt.Errorf("harness: json of Transfer: %v", err)
 		}
+		if len(native) > len(doc) {
+			labels = append(labels, "binary-longer-than-json")
+		}
 		finish(map[string]any{"type": "Transfer", "json": c29Short(string(doc))})
 		return c29CheckAction(a, "Transfer", string(doc), native, false)
 
@@ -442,6 +477,9 @@ func c29Run(c c29Case, st *vstat.Stats) error {
 				}
 			}
 		}
+		if len(native) > len(doc) {
+			labels = append(labels, "binary-longer-than-json")
+		}
 		finish(map[string]any{"type": "TestAction", "json": c29Short(string(doc))})
 		return c29CheckAction(a, "TestAction", string(doc), native, lossy)
 	}
@@ -466,7 +504,7 @@ func c29CheckAction(a abi.ABI, name, doc string, native []byte, lossy bool) erro
 }
 
 func TestC29(t *testing.T) {
-	st := vstat.New(t, "C29", "values of every registered type (MorpheusVM Transfer / TransferResult, test kit TestAction / TestOutput): 64-bit numbers biased to 0, 2^8k, 2^53±1, 2^63, 2^64-1 and int64 extremes, addresses, memos 0..256 bytes, strings with JSON-hostile and multi-byte runes (sometimes invalid UTF-8), nested byte slices 0..4 x 0..1000 bytes, permission bytes; each value normalised by one native encode/decode; ABI from abi.NewABI over the registry; oracle: dynamic.Marshal(json(v)) == v.Bytes() and dynamic.UnmarshalAction/UnmarshalOutput(v.Bytes()) equals json(v) as decoded trees (UseNumber); non-trivial = a non-empty nested slice or a number >= 2^53; distinct by full case")
+	st := vstat.New(t, "C29", "values of every registered type (MorpheusVM Transfer / TransferResult, test kit TestAction / TestOutput): 64-bit numbers biased to 0, 2^8k, 2^53±1, 2^63, 2^64-1 and int64 extremes, addresses, memos 0..256 bytes, strings with JSON-hostile and multi-byte runes (sometimes invalid UTF-8), nested byte slices 0..4 (tail to 40) x 0..1000 bytes, runs of 50..200 empty inner slices (binary longer than JSON), small numbers 0/1/7, permission bytes; each value normalised by one native encode/decode; ABI from abi.NewABI over the registry; oracle: dynamic.Marshal(json(v)) == v.Bytes() and dynamic.UnmarshalAction/UnmarshalOutput(v.Bytes()) equals json(v) as decoded trees (UseNumber); non-trivial = a non-empty nested slice or a number >= 2^53; distinct by full case")
 	rapid.Check(t, func(rt *rapid.T) {
 		c := c29Gen(rt)
 		vstat.Run(rt, st, c, func() error { return c29Run(c, st) })
